@@ -3,10 +3,11 @@
 it breaks, expect exit 1 with a VIOLATION line, revert.  Prints one line per seed and a summary; writes seeded/REGRESSION.json.
 Never leaves /repo dirty (reverts in `finally`).  Not part of any registered command: a self-test of the machinery."""
 import json, os, subprocess, sys, time, re
-V = "/verif"
+V = os.path.dirname(os.path.dirname(os.path.abspath(__file__)))
+REPO = os.environ.get("VERIF_REPO", "/repo")   # an isolated mirror sets VERIF_REPO (and points harness/Cargo.toml, harness/build.sh at its copies)
 sel = sys.argv[1:]
 res = {}
-assert subprocess.run(["git", "-C", "/repo", "status", "--porcelain"], capture_output=True, text=True).stdout.strip() == "", "/repo dirty"
+assert subprocess.run(["git", "-C", REPO, "status", "--porcelain"], capture_output=True, text=True).stdout.strip() == "", "/repo dirty"
 for d in sorted(os.listdir(os.path.join(V, "seeded"))):
     p = os.path.join(V, "seeded", d)
     if not os.path.isdir(p) or (sel and not any(d.startswith(s) for s in sel)):
@@ -14,12 +15,12 @@ for d in sorted(os.listdir(os.path.join(V, "seeded"))):
     meta = json.load(open(os.path.join(p, "meta.json")))
     pid = re.match(r"C\d\d", meta.get("breaks_property", d)).group(0)
     t0 = time.time()
-    subprocess.check_call(["git", "-C", "/repo", "apply", os.path.join(p, "patch.diff")])
+    subprocess.check_call(["git", "-C", REPO, "apply", os.path.join(p, "patch.diff")])
     try:
         r = subprocess.run(["./check", pid, "--tier", "quick"], cwd=V, capture_output=True, text=True, timeout=7200)
     finally:
-        subprocess.check_call(["git", "-C", "/repo", "checkout", "--", "."])
-        subprocess.run(["git", "-C", "/repo", "clean", "-fdq"])
+        subprocess.check_call(["git", "-C", REPO, "checkout", "--", "."])
+        subprocess.run(["git", "-C", REPO, "clean", "-fdq"])
     vio = [l for l in r.stdout.splitlines() if l.startswith("VIOLATION")]
     concrete = any("no-failing-input-found" not in l for l in vio)
     ok = r.returncode == 1 and bool(vio)
